@@ -242,7 +242,7 @@ pub fn decode_stream(data: &[u8]) -> stream::SCase {
         chunk,
         payload,
         ops,
-        extra_polls,
+        extra_polls, ..Default::default()
     }
 }
 
